@@ -186,14 +186,32 @@ def run_pair(scripts):
     return m, h
 
 
+def compare_legacy(lines_model, lines_cpp):
+    """Model.LegacyStream <-> TCPStream: the bytes delivered after every segment"""
+    got = [l[2:] for l in lines_cpp if l.startswith('L ')]
+    exp = lines_model[1:]
+    for i, (a, b) in enumerate(zip(exp, got)):
+        if a.startswith('-'):
+            return []            # the model reports a site the C++ leaves undefined: not compared from here on
+        if a != b:
+            return ['segment %d: legacy model delivers "%s", TCPStream "%s"' % (i + 1, a[:80], b[:80])]
+    if len(got) != len(exp) and not any(a.startswith('-') for a in exp):
+        return ['legacy model has %d segment results, TCPStream %d' % (len(exp), len(got))]
+    return []
+
+
 def evaluate(batch):
     """batch: list of ((sid, lines), meta).  returns list of (sid, kind, complaints)"""
     scripts = [b[0] for b in batch]
     m, h = run_pair(scripts)
+    noadv = [(sid, lines) for sid, lines in scripts if not any(l.startswith('adv') for l in lines)]
+    ml = C.run_model('ls', noadv) if noadv else {}
     out = []
     for (sid, lines), meta in batch:
         lm, lh = m.get(sid, ['<no model output>']), h.get(sid, ['<no harness output>'])
         corr = compare(lm, lh, meta['kind'] == 'consistent')
+        if sid in ml and any(l.startswith('L ') for l in lh):
+            corr = corr + compare_legacy(ml[sid], lh)
         orc = oracle(meta, lh) if meta['kind'] == 'consistent' else [l for l in lh if l.startswith('!!')]
         out.append((sid, corr, orc, lm, lh))
     return out
